@@ -66,10 +66,27 @@ def eval_const(expr, env):
 def consts_of(src, env=None):
     env = dict(env or {})
     out = {}
-    for m in re.finditer(r"pub(?:\(crate\))?\s+const\s+([A-Z0-9_]+)\s*:\s*([A-Za-z0-9]+)\s*=\s*([^;]+);", strip_comments(src)):
-        v = eval_const(m.group(3), env)
-        env[m.group(1)] = v
-        out[m.group(1)] = v
+    # Rust constants may refer to constants defined further down in the file: evaluate to a fixpoint so
+    # that the order of the items does not matter (private constants are read too: a public one may use them)
+    pending = [(m.group(1), m.group(2)) for m in
+               re.finditer(r"(?:pub(?:\([a-z:]+\))?\s+)?const\s+([A-Z][A-Z0-9_]*)\s*:\s*[A-Za-z0-9:<>& ]+?\s*=\s*([^;]+);", strip_comments(src))]
+    last_err = None
+    while pending:
+        rest = []
+        for n, expr in pending:
+            try:
+                v = eval_const(expr, env)
+            except ExtractError as e:
+                last_err = e
+                rest.append((n, expr))
+                continue
+            env[n] = v
+            out[n] = v
+        if len(rest) == len(pending):
+            # constants this translator cannot evaluate are only an error when something asks for them
+            break
+        pending = rest
+    out["__unresolved__"] = {n: str(last_err) for n, _ in pending} if pending else {}
     return out
 
 
@@ -156,7 +173,7 @@ def gen_consts():
     c = consts_of(read("crates/maybenot/src/constants.rs"))
     for k in ["VERSION", "MAX_DECOMPRESSED_SIZE", "EVENT_NUM", "STATE_LIMIT_MAX", "STATE_END", "STATE_SIGNAL", "STATE_MAX"]:
         if k not in c:
-            raise ExtractError(f"constant {k} not found in constants.rs")
+            raise ExtractError(f"constant {k} not found in constants.rs {c.get('__unresolved__', {}).get(k, '')}")
         L.append(f"def {k} : Nat := {as_nat(k, c[k])}")
     for k in ["MAX_SAMPLED_TIMEOUT", "MAX_SAMPLED_TIMER_DURATION", "MAX_SAMPLED_BLOCK_DURATION"]:
         if k not in c:
